@@ -51,6 +51,7 @@ var kernels = []kernel{
 	{Name: "cutter_cutGuard", Dir: "pkg/batch/cutter", Func: "Cut", Kind: "guard", Mention: "maxOperationsPerBatch"},
 	{Name: "cutter_maxOps", Dir: "pkg/batch/cutter", Func: "Cut", Kind: "assign", Mention: "maxOperationsPerBatch"},
 	{Name: "cutter_batchSize", Dir: "pkg/batch/cutter", Func: "Cut", Kind: "assign", Mention: "batchSize"},
+	{Name: "provider_mhLenGuard", Dir: "pkg/versions/1_0/txnprovider", Func: "validateRequiredMultihash", Kind: "guard", Mention: "MaxOperationHashLength"},
 	{Name: "provider_uriGuard", Dir: "pkg/versions/1_0/txnprovider", Func: "validateURI", Kind: "guard", Mention: "MaxCasURILength"},
 	{Name: "provider_sizeGuard", Dir: "pkg/versions/1_0/txnprovider", Func: "readFromCAS", Kind: "guard", Mention: "maxSize", Nth: 0},
 	{Name: "provider_decompGuard", Dir: "pkg/versions/1_0/txnprovider", Func: "readFromCAS", Kind: "guard", Mention: "maxDecompressedSize"},
